@@ -41,6 +41,7 @@ FAULTS = [
 ]
 CONTAINERS = {"3mf", "glb", "zip_stl", "zip_ply", "zip_glb", "zip_obj_mtl", "targz_obj", "tarbz2_ply", "bz2_stl"}
 TEXTUAL = {"gltf", "dae", "svg", "dxf", "obj", "obj_mtl", "off", "ply_ascii", "stl_ascii", "dict", "dict64", "xyz"}
+AMPLIFIED = {"dxf", "glb", "gltf", "3mf", "obj", "obj_mtl", "stl_ascii", "stl", "svg", "3dxml"}
 INNER_KINDS = ["token_copy", "token_copy", "token_copy", "token_copy", "json_field", "int_field", "flip_bit", "truncate", "delete_range", "dup_range", "set_byte", "zero_fill"]
 # keys a glTF / JSON document may legally carry that trimesh's own exporter never writes, and values worth trying in any numeric slot
 JSON_KEYS = ["byteStride", "byteOffset", "byteLength", "count", "componentType", "type", "normalized", "sparse", "mode", "indices", "mesh", "children", "matrix", "scale", "rotation", "translation", "bufferView", "buffer", "target", "min", "max", "uri", "source", "sampler", "index", "texCoord", "extras", "camera", "skin", "weights", "POSITION", "NORMAL", "COLOR_0", "TEXCOORD_0"]
@@ -492,7 +493,7 @@ def boundaries(data, ft):
 class C20(World):
     ID = "C20"
     LEVEL = "fault_enumeration"
-    RUNS = {"quick": 5000, "thorough": 300000}
+    RUNS = {"quick": 4000, "thorough": 300000}
     WALL = {"quick": 115.0, "thorough": 1700.0}
     BLOCK = 40
     BLOCK_TIMEOUT = 300
@@ -638,6 +639,8 @@ class C20(World):
                 kind = "token_copy" if u < 0.08 else "json_field"
             elif cfg["fmt"] in ("gltf", "obj_mtl", "obj", "dae") and u < 0.2:
                 kind = "uri_special"
+            elif cfg["fmt"] in AMPLIFIED and u > 0.9:
+                kind = "amplifier"
             ops.append({"op": "attempt", "fault": self._gen_fault(rng, kind, cfg["fmt"]), "route": rng.choice(cfg["routes"]), "transport": rng.choice(["bytesio", "simfile", "path"]), "rs": rng.randrange(2**31)})
         ops.append({"op": "valid_after", "rs": rng.randrange(2**31)})
         return {"config": cfg, "ops": ops}
@@ -695,6 +698,19 @@ class C20(World):
             op = dict(op, geom=dict(op["geom"], shape="normal"))
             obj = fw.build_geometry(op["geom"], cfg["fmt"])
         files, main, ft = fw.export_payload(obj, cfg["fmt"])
+        if cfg["fmt"] in ("ply", "ply_ascii") and op["geom"].get("colors") == "texture" and b"end_header" in files[main]:
+            # a PLY that names its texture image the way other programs do (a comment in the header), with the image beside it
+            import io as _io
+
+            from PIL import Image
+
+            buf = _io.BytesIO()
+            Image.new("RGB", (4, 4), (200, 30, 30)).save(buf, format="PNG")
+            files = dict(files)
+            files["texture_0.png"] = buf.getvalue()
+            head, sep, rest = files[main].partition(b"\n")
+            fmt_line, sep2, rest2 = rest.partition(b"\n")
+            files[main] = head + sep + fmt_line + sep2 + b"comment TextureFile texture_0.png\n" + rest2
         st.update({"files": files, "main": main, "ft": ft, "pristine": dict(files), "want": fw.content(obj)})
         try:
             o2 = fw.build_geometry(op["other"], cfg["fmt"])
